@@ -1,6 +1,6 @@
 //! C03 harness: analysis and every editor query are total on any project state.
 //!
-//! usage: c03 gen   <seed> <ncases> <nsteps> <out.jsonl> <workdir> <threads> <watchdog_s> [<lsp_cases_out.json> <n_lsp> [<budget_s>]]
+//! usage: c03 gen   <seed> <ncases> <nsteps> <out.jsonl> <workdir> <threads> <watchdog_s> [<lsp_cases_out.json> <n_lsp> [<budget_s> [<kinds_stride: 0 = no kind-confusion sweep, 1 = every name, k = every k-th>]]]
 //!        c03 cases <cases.json>            <out.jsonl> <workdir> <threads> <watchdog_s>
 //!        c03 min   <replay.json> <out.json> <workdir>       (delta-debugging of one violating case)
 //!        c03 show  <seed> <idx> <nsteps>                    (print a generated case as JSON)
@@ -854,7 +854,13 @@ fn run_case(case: &Case, dir: &Path, hb: &Heartbeat, out: &Out, opts: &Opts) -> 
         check_diags(&project, &mut sc, &diags);
         // files to query: the edited one, plus one other; at step 0 and at the last step all of them
         let mut qfiles: Vec<String> = vec![];
-        if step == 0 || step == nsteps {
+        let lean = case.family == "kinds";
+        if lean && step > 0 && step < nsteps {
+            // per-site sweep of the kind-confusion family: thousands of states that differ in one line
+            if let Some((f, _)) = &edited {
+                qfiles.push(f.clone());
+            }
+        } else if step == 0 || step == nsteps {
             qfiles = case.files.iter().map(|(n, _)| n.clone()).collect();
         } else {
             if let Some((f, _)) = &edited {
@@ -873,7 +879,19 @@ fn run_case(case: &Case, dir: &Path, hb: &Heartbeat, out: &Out, opts: &Opts) -> 
             let near = edited.as_ref().filter(|(f, _)| f == fname).map(|(_, l)| *l);
             let is_edited = near.is_some();
             let max = if is_edited || step == nsteps { opts.max_cursors } else { opts.max_cursors / 4 };
-            let mut cursors = select_cursors(&mut r, &text, near, max.max(4), opts.exhaustive_cursors);
+            let mut cursors = if lean && near.is_some() && step < nsteps {
+                let nl = near.unwrap();
+                let mut on_line: Vec<(u32, u32)> = boundaries(&text).into_iter().filter(|(l, _)| *l == nl).collect();
+                if on_line.len() > 8 {
+                    // the substituted name sits in the middle of the line: keep every other boundary
+                    on_line = on_line.into_iter().enumerate().filter(|(i, _)| i % 2 == 0).map(|(_, c)| c).collect();
+                }
+                on_line.push((nl, u32::MAX));
+                on_line.push((u32::MAX, 0));
+                on_line
+            } else {
+                select_cursors(&mut r, &text, near, max.max(4), opts.exhaustive_cursors)
+            };
             if step == nsteps {
                 for (f, l, c) in &case.cursors {
                     if f == fname {
@@ -881,11 +899,13 @@ fn run_case(case: &Case, dir: &Path, hb: &Heartbeat, out: &Out, opts: &Opts) -> 
                     }
                 }
             }
-            file_queries(&project, &mut sc, fname, &src);
-            cursor_queries(&project, &mut sc, fname, &src, &cursors, hb, &mut seen_ents, near, opts.full_queries);
+            if !lean || step % 8 == 0 || step == nsteps {
+                file_queries(&project, &mut sc, fname, &src);
+            }
+            cursor_queries(&project, &mut sc, fname, &src, &cursors, hb, &mut seen_ents, if lean && step < nsteps { None } else { near }, opts.full_queries);
             hb.beat();
         }
-        if opts.arena_trace {
+        if opts.arena_trace && (!lean || step % 8 == 0 || step == nsteps) {
             *hb.current.lock().unwrap() = "arena observation (Project::search)".to_string();
             hb.beat();
             let res = catch_unwind(AssertUnwindSafe(|| {
@@ -1184,10 +1204,14 @@ fn main() {
             let workdir = &args[6];
             let threads: usize = args[7].parse().unwrap();
             let wd: u64 = args[8].parse().unwrap();
-            let cases: Vec<Case> = (0..ncases).map(|i| gen::gen_case(seed, i, nsteps)).collect();
+            // the systematic kind-confusion sweep first (never cut by the time budget), then the random histories
+            let stride: usize = args.get(12).and_then(|s| s.parse().ok()).unwrap_or(2);
+            let mut cases: Vec<Case> = if stride == 0 { vec![] } else { gen::zoo_cases(seed, stride) };
+            let nkinds = cases.len();
+            cases.extend((0..ncases).map(|i| gen::gen_case(seed, i, nsteps)));
             if let (Some(p), Some(n)) = (args.get(9), args.get(10)) {
                 let n: usize = n.parse().unwrap();
-                let v: Vec<Value> = cases.iter().take(n).map(|c| c.to_json()).collect();
+                let v: Vec<Value> = cases.iter().take(nkinds + n).map(|c| c.to_json()).collect();
                 std::fs::write(p, serde_json::to_string(&v).unwrap()).unwrap();
             }
             let budget: u64 = args.get(11).and_then(|s| s.parse().ok()).unwrap_or(0);
@@ -1235,6 +1259,14 @@ fn main() {
                 }
                 println!("-- ieee={ieee} done");
             }
+            let mut case = gen::zoo_case("zoo".into(), 0, false);
+            case.edits.clear();
+            let mut p = make_project(&case, &dir);
+            for d in p.analyse() {
+                let line = case.files[1].1.lines().nth(d.pos.range.start.line as usize).unwrap_or("");
+                println!("{} {}:{} {:?} {} | {}", d.pos.source.file_name().display(), d.pos.range.start.line + 1, d.pos.range.start.character, d.code, d.message, if d.pos.source.file_name().ends_with("uses.vhd") { line } else { "" });
+            }
+            println!("-- zoo done");
         }
         _ => {
             eprintln!("usage: c03 gen|cases|min|show|base ...");
